@@ -119,6 +119,22 @@ class Tok:
             if i in newidx and j in newidx:
                 key = (min(newidx[i], newidx[j]), max(newidx[i], newidx[j]))
                 self.bonds[key] = b.GetBondTypeAsDouble()
+        # the library's tokenizer counts an explicitly written [H] as an atom of the token while RDKit folds it into its
+        # neighbour: if that shifts the index of an attachment atom the token sits in a known-finding region
+        self.h_shift = False
+        if "[H]" in self.template and len(keep) > 1:
+            pp = Chem.SmilesParserParams()
+            pp.removeHs = False
+            mh = Chem.MolFromSmiles(dummies, pp)
+            if mh is not None:
+                keep_h = [a.GetIdx() for a in mh.GetAtoms() if a.GetAtomMapNum() == 0]
+                newidx_h = {old: new for new, old in enumerate(keep_h)}
+                for a in mh.GetAtoms():
+                    kk = a.GetAtomMapNum()
+                    if kk:
+                        nb = a.GetNeighbors()[0].GetIdx()
+                        if newidx_h[nb] != sites[kk - 1]:
+                            self.h_shift = True
         self.frag = frag
         self.natoms = len(keep)
         self.mass = sum(_heavy_mass(a[0], a[2]) for a in self.atoms)
